@@ -125,6 +125,12 @@ Definition show_ref_answers (x : option (list ref_rr * list learned * nat)) : st
   | Some (_, ls, e) => show_learned ls ++ dec_of_nat e
   end.
 
+(* leniency: a PTR owner with a '.' inside a label (dnsmessage rejects such names; the library reads
+   the dotted text): unconstrained *)
+Definition has_dot (l : bytes) : bool := existsb (fun c => c =? 46) l.
+Definition ptr_dot_owner (rrs : list ref_rr) : bool :=
+  existsb (fun r => (rr_type r =? 12) && existsb has_dot (rr_owner r)) rrs.
+
 Definition run_rrs (p spare : bytes) (off : Z) (pre : bytes) (n : nat) : string :=
   let ps := mk_slice p spare in
   let buffer := mk_buffer pre n in
@@ -137,6 +143,7 @@ Definition run_rrs (p spare : bytes) (off : Z) (pre : bytes) (n : nat) : string 
     if Nat.ltb (List.length p) 12 then mobs
     else if (off <? 0)%Z then mobs   (* negative offset: API misuse, unconstrained *)
     else if negb (String.eqb (show_ref_answers strict) (show_ref_answers lax)) then mobs
+    else if match lax with Some (rrs, _, _) => ptr_dot_owner rrs | None => false end then mobs
     else match strict with
          | None => reject_as (is_err (fst r)) mobs
          | Some (_, ls, e) =>
@@ -176,6 +183,16 @@ Fixpoint cput (k : bytes) (c : cache) (t : list named) : list named :=
 Definition show_ref_msg (x : option ref_msg) : string :=
   match x with None => "none" | Some m => tok_of_bytes (rm_qname m) ++ ">" ++ show_learned (rm_learned m) end.
 
+Definition msg_ptr_dot (p : bytes) : bool :=
+  match u16_at p 6, ref_question_at LAX p 12 with
+  | Some an, Some (_, off) =>
+      match ref_rrs LAX (N.to_nat an) p off with
+      | Some (rrs, _) => ptr_dot_owner rrs
+      | None => false
+      end
+  | _, _ => false
+  end.
+
 (* one step: model, spec expectation (given the spec table), key *)
 Definition pdns_step (t : dns_table) (st : list named) (p spare : bytes)
   : dns_table * list named * string * string * string :=
@@ -184,7 +201,7 @@ Definition pdns_step (t : dns_table) (st : list named) (p spare : bytes)
   let mobs := show_ret r in
   let strict := ref_message NAME_LIMIT p in
   let lax := ref_message LAX p in
-  let unconstrained := negb (String.eqb (show_ref_msg strict) (show_ref_msg lax)) in
+  let unconstrained := negb (String.eqb (show_ref_msg strict) (show_ref_msg lax)) || msg_ptr_dot p in
   let '(sobs, st') :=
     if unconstrained then (mobs, ctable_of t')
     else match strict with
